@@ -115,13 +115,14 @@ class StringSerializableRegistry:
         flag = True
         while flag:
             flag = False
-            filtered: Set[T_StringSerializable] = set()
+            replaced: Set[T_StringSerializable] = set()
             for t1, t2 in permutations(types, 2):
                 if (t1, t2) in self.replaces:
-                    filtered.add(t2)
+                    replaced.add(t1)
                     flag = True
             if flag:
-                types = filtered
+                # Drop only the types that are a particular case of another one, keep unrelated types
+                types = types - replaced
         # noinspection PyUnboundLocalVariable
         return types
 
